@@ -11,9 +11,9 @@ import (
 var strValues = []string{"", "v1", "v2", "v3", "a<b", `q"r`, "x&y", "it's", "é1", "v4"}
 
 type scope struct {
-	strs []string
-	ints []string
-	used map[string]bool
+	strs     []string
+	ints     []string
+	used     map[string]bool
 	isCallee bool
 }
 
@@ -37,6 +37,12 @@ func (g *Gen) id() int { g.P.nextID++; return g.P.nextID }
 func NewProgram(r *rand.Rand, name string, maxDepth, budget int) *Program {
 	p := &Program{Name: name}
 	g := &Gen{R: r, P: p, MaxDepth: maxDepth, budget: budget}
+	if r.Intn(3) == 0 {
+		p.Script = &ScriptTemplate{Name: name + "s1", Body: pick(r, []string{"console.log(x)", "if (x < \"b\" && x) { alert(x + 'q') }", "document.title = `t${x}`;"})}
+	}
+	if r.Intn(3) == 0 {
+		p.CSS = &CSSTemplate{Name: name + "k1", Props: [][2]string{{"color", "red"}, {"margin", "0 auto"}}}
+	}
 	// callees first so that main can call them
 	nc := r.Intn(4)
 	for i := 0; i < nc; i++ {
@@ -180,7 +186,7 @@ func (g *Gen) attrs(sc *scope, elem string, used map[string]bool, depth int) []*
 	}
 	for i := 0; i < n; i++ {
 		a := &Attr{NL: false}
-		k := r.Intn(16)
+		k := r.Intn(17)
 		switch {
 		case k < 4:
 			a.Kind = AConst
@@ -226,6 +232,9 @@ func (g *Gen) attrs(sc *scope, elem string, used map[string]bool, depth int) []*
 			a.Name = "class"
 			np := 1 + r.Intn(3)
 			seen := map[string]bool{}
+			if g.P.CSS != nil && r.Intn(2) == 0 {
+				a.Parts = append(a.Parts, ClassPart{CSS: g.P.CSS})
+			}
 			for j := 0; j < np; j++ {
 				lit := pick(r, []string{"c1", "c2", "c3", "c4", "c-5"})
 				if seen[lit] {
@@ -238,7 +247,19 @@ func (g *Gen) attrs(sc *scope, elem string, used map[string]bool, depth int) []*
 				}
 				a.Parts = append(a.Parts, p)
 			}
-		default:
+		case k == 15 && g.P.Script != nil:
+			a.Kind = AOnEvent
+			a.Name = ""
+			for _, nm := range []string{"onclick", "onmouseover", "onfocus"} {
+				if !used[nm] {
+					a.Name = nm
+					used[nm] = true
+					break
+				}
+			}
+			a.X = g.sexpr(sc)
+			a.X.Err, a.X.Multi = false, false
+		case k >= 16 || k == 15:
 			if elem != "a" || used["href"] {
 				continue
 			}
@@ -382,6 +403,10 @@ func (g *Gen) node(sc *scope, depth int, ctx pctx) *Node {
 				continue
 			}
 			return &Node{Kind: KSlot}
+		case k == 27 && g.P.Script != nil && r.Intn(2) == 0:
+			nd := &Node{Kind: KScriptCall, ArgS: g.sexpr(sc)}
+			nd.ArgS.Err, nd.ArgS.Multi = false, false
+			return nd
 		case k < 28:
 			v := fmt.Sprintf("v%d", g.id())
 			nd := &Node{Kind: KGoCode, VarName: v, VarX: g.sexpr(sc)}
@@ -525,9 +550,11 @@ func startsBrace(n *Node) bool {
 	return false
 }
 
+func isCallLike(n *Node) bool { return n.Kind == KCall || n.Kind == KScriptCall }
+
 func lineStartKind(n *Node) bool { // must start at the beginning of a line (after indentation) when it follows text
 	switch n.Kind {
-	case KIf, KFor, KSwitch, KCall, KGoComment:
+	case KIf, KFor, KSwitch, KCall, KGoComment, KScriptCall:
 		return true
 	}
 	return false
@@ -586,15 +613,15 @@ func filterSeps(allowed []Sep, prev, n *Node) []Sep {
 			ok = s == SepNL // text swallows keywords, '@' and comment openers on its line
 		case prev.Kind == KText && n.Kind == KGoComment:
 			ok = s == SepNL
-		case prev.Kind == KCall && !prev.HasBlock && !prev.Legacy && startsBrace(n):
+		case isCallLike(prev) && !prev.HasBlock && !prev.Legacy && startsBrace(n):
 			ok = s == SepNL // "@c() {" would open a block
-		case prev.Kind == KCall && !prev.HasBlock && !prev.Legacy && s != SepNL:
+		case isCallLike(prev) && !prev.HasBlock && !prev.Legacy && s != SepNL:
 			ok = false // keep calls without block at the end of their line
 		case prev.Kind == KDoctype:
 			ok = s == SepNL
 		case n.Kind == KDoctype:
 			ok = s == SepNL
-		case (prev.Kind == KIf || prev.Kind == KFor || prev.Kind == KSwitch || prev.Kind == KCall) && n.Kind == KText && s == SepNone:
+		case (prev.Kind == KIf || prev.Kind == KFor || prev.Kind == KSwitch || isCallLike(prev)) && n.Kind == KText && s == SepNone:
 			ok = false // "}w1" is fine for the parser but keep text off closing braces
 		case n.Kind == KGoComment && s == SepNone && prev.Kind != KText:
 			ok = true
@@ -623,12 +650,12 @@ func (g *Gen) endSep(ns []*Node, ctx pctx) Sep {
 	}
 	switch ctx {
 	case ctxElemSingle:
-		if last.Kind == KCall && !last.HasBlock && !last.Legacy {
+		if isCallLike(last) && !last.HasBlock && !last.Legacy {
 			return SepNone
 		}
 		return pick(g.R, []Sep{SepNone, SepNone, SepSpace})
 	case ctxFlow:
-		if g.R.Intn(8) == 0 && last.Kind != KText && !(last.Kind == KCall && !last.HasBlock) && last.Kind != KGoCode {
+		if g.R.Intn(8) == 0 && last.Kind != KText && !(isCallLike(last) && !last.HasBlock) && last.Kind != KGoCode {
 			return pick(g.R, []Sep{SepNone, SepSpace})
 		}
 		return SepNL
